@@ -117,7 +117,7 @@ def multi_break(seq):
 def classify(name, defn, inp=None):
     fid = classify_structure(name, defn)
     if fid is None and inp is not None:
-        if inp.get("mode") == "c01sub" and name in ("F", "K", "FS", "FL"):
+        if inp.get("mode") == "c01sub" and name in ("F", "K", "FS", "FL", "FK"):
             return "KF-PARTIAL-EVIDENCE"
         if name == "FB" and _nbreaks_all(defn) >= 1:
             return "KF-EXT-BREAK-FORK"
@@ -141,7 +141,7 @@ def classify_structure(name, defn):
         return "KF-CORPUS-KILL-MERGE"
     if name and "loop_with_2_breaks_one_leads_to_other" in name:
         return "KF-CORPUS-2BREAKS"
-    if name and name not in ("F", "F+", "K", "FB", "FS", "FL"):
+    if name and name not in ("F", "F+", "K", "FB", "FS", "FL", "FK"):
         return None
     if nested_break(defn):
         return "KF-NESTED-BREAK"
